@@ -115,6 +115,15 @@ theorem clone_count (S : Suite) (allow : String → List String) (f : Nat) (t : 
       (instSlots t asg).foldl (fun n s => n * max 1 (prods S allow f asg s).length) 1 := by
   rw [insts_eq_fold, foldSlots_length]; rfl
 
+/-- **The edge set, exactly.**  The dependencies recorded in a worker's graph are precisely the `parents` of its
+nodes: an edge is in the graph iff it is of that worker and its child is a node of the graph having the edge's
+parent as a parent for the edge's object. -/
+theorem edges_exact (S : Suite) (user : List (String × VLine)) (sel : List RLine) (w : Worker) (e : GEdge) :
+    e ∈ (resolveWorker S user sel w).edges ↔
+      e.worker = w.name ∧ ∃ i ∈ workerNodes S (allowed S user w) sel, i.key = e.child ∧
+        (e.vm, e.kind, e.parent) ∈ i.parents :=
+  mem_worker_edges S user sel w e
+
 /-- **Transitively down to object creation.**  Whatever a selected test reveals is closed under "parent of": every
 parent named by a node of the graph is itself a node of the graph (so every setup chain is complete down to the
 nodes without dependencies, the object creation nodes). -/
